@@ -233,14 +233,30 @@ fn pool_item(rng: &mut Rng, depth: usize) -> Item {
     }
 }
 
-struct Run { eps: Vec<(&'static str, EpFn)>, panics: BTreeMap<String, u64>, oks: BTreeMap<&'static str, u64>, errs: BTreeMap<&'static str, u64>, calls: u64 }
+struct Run { eps: Vec<(&'static str, EpFn)>, panics: BTreeMap<String, u64>, oks: BTreeMap<&'static str, u64>, errs: BTreeMap<&'static str, u64>, calls: u64,
+             idx: usize, skip: std::collections::BTreeSet<(usize, String)>, skip_eps: std::collections::BTreeSet<String>, progress: Option<std::fs::File> }
 
 impl Run {
     /// run every entry point; returns the outcomes of the modelled ones by name
     fn all(&mut self, b: &[u8], origin: &str) -> BTreeMap<&'static str, (u8, i64, String)> {
         let mut res = BTreeMap::new();
+        // tell the supervisor which input is in flight (it is replayed entry point by entry point if this process dies)
+        if let Some(f) = self.progress.as_mut() {
+            use std::io::{Seek, Write};
+            let _ = f.seek(std::io::SeekFrom::Start(0));
+            let line = format!("{}\n{}\n{}\n", self.idx, origin.replace('\n', " "), hex(b));
+            let _ = f.write_all(line.as_bytes());
+            let _ = f.set_len(line.len() as u64);
+            let _ = f.flush();
+        }
+        let idx = self.idx;
+        self.idx += 1;
         for (name, f) in &self.eps {
-            let o = guard(|| f(b));
+            // an entry point that killed a previous worker on this input is not called again: class 2
+            let o = if self.skip_eps.contains(*name) || self.skip.contains(&(idx, name.to_string())) || self.skip.contains(&(idx, "*".to_string())) {
+                res.insert(*name, (2u8, 0i64, "process abort (isolated by the supervisor)".to_string()));
+                continue;
+            } else { guard(|| f(b)) };
             self.calls += 1;
             let (c, info, txt) = match &o { Out::Ok(v) => (0u8, *v, String::new()), Out::Err(e) => (1, 0, e.clone()), Out::Panic(p) => (2, 0, p.clone()) };
             match c { 0 => *self.oks.entry(name).or_insert(0) += 1, 1 => *self.errs.entry(name).or_insert(0) += 1, _ => {} }
@@ -369,9 +385,87 @@ fn nest_child(ep: &str, depth: usize) {
     let _ = h.join();
 }
 
+fn extra_val(args: &Args, key: &str) -> Option<String> { args.extra.iter().position(|x| x == key).and_then(|i| args.extra.get(i + 1).cloned()) }
+
+/// Supervisor: the implementation only ever runs in child processes. A worker that dies (abort on
+/// allocation failure, stack overflow, double panic ...) is an ORACLE_FAIL, not a harness failure:
+/// the input in flight is replayed entry point by entry point in further children to find the
+/// culprit(s), which the next worker skips.
+fn supervise(args: &Args) {
+    let exe = std::env::current_exe().expect("current_exe");
+    let dir = format!("{}/.cache/c09-{}", std::env::var("VERIF_DIR").unwrap_or("/verif".to_string()), std::process::id());
+    std::fs::create_dir_all(&dir).expect("scratch dir");
+    let progress = format!("{}/progress", dir);
+    let input_file = format!("{}/input", dir);
+    let base: Vec<String> = vec!["--seed".into(), args.seed.to_string(), "--n".into(), args.n.to_string(), "--tier".into(), args.tier.clone()];
+    let mut skip: Vec<(usize, String)> = vec![];
+    let mut per_ep: BTreeMap<String, u32> = BTreeMap::new();
+    let mut aborts: Vec<(String, String)> = vec![];
+    let n_eps = entry_points().len();
+    let names: Vec<&'static str> = entry_points().into_iter().map(|e| e.0).collect();
+    let mut final_out: Option<Vec<u8>> = None;
+    let mut restarts = 0u64;
+    for _attempt in 0..80 {
+        let skip_eps: Vec<String> = per_ep.iter().filter(|(_, n)| **n >= 3).map(|(k, _)| k.clone()).collect();
+        let mut cmd = std::process::Command::new(&exe);
+        cmd.args(&base).arg("--worker").arg("--progress").arg(&progress)
+            .arg("--skip").arg(skip.iter().map(|(i, e)| format!("{}={}", i, e)).collect::<Vec<_>>().join(";"))
+            .arg("--skip-eps").arg(skip_eps.join(";"));
+        if args.oracle_only { cmd.arg("--oracle-only"); }
+        let out = cmd.stdout(std::process::Stdio::piped()).stderr(std::process::Stdio::null()).output().expect("spawn worker");
+        if out.status.success() { final_out = Some(out.stdout); break; }
+        restarts += 1;
+        // the worker died: which input was in flight?
+        let prog = std::fs::read_to_string(&progress).unwrap_or_default();
+        let mut it = prog.lines();
+        let (Some(k), Some(origin), Some(hx)) = (it.next().and_then(|x| x.parse::<usize>().ok()), it.next(), it.next()) else {
+            aborts.push(("abort/harness/no-progress".into(), format!("worker died ({:?}) before reporting an input", out.status))); break };
+        let bytes = hex::decode(hx).unwrap_or_default();
+        std::fs::write(&input_file, &bytes).expect("write input");
+        let mut found = false;
+        for e in 0..n_eps {
+            if skip.contains(&(k, names[e].to_string())) { continue; }
+            let st = std::process::Command::new(&exe).arg("--probe-one").arg(e.to_string()).arg(&input_file)
+                .stdout(std::process::Stdio::null()).stderr(std::process::Stdio::null()).status();
+            let died = match &st { Ok(s) => !s.success(), Err(_) => false };
+            if died {
+                found = true;
+                skip.push((k, names[e].to_string()));
+                *per_ep.entry(names[e].to_string()).or_insert(0) += 1;
+                aborts.push((format!("abort/{}", names[e]), format!("entry={} origin={} input={} the process running this decode call died: {:?} (allocation failure, stack overflow or abort)", names[e], origin, &hx[..hx.len().min(8000)], st)));
+            }
+        }
+        if !found {
+            skip.push((k, "*".to_string()));
+            aborts.push(("abort/unattributed".into(), format!("origin={} input={} a worker died on this input ({:?}) but no single entry point reproduces it", origin, &hx[..hx.len().min(8000)], out.status)));
+        }
+    }
+    let mut seen = std::collections::BTreeSet::new();
+    for (k, w) in &aborts { if seen.insert(k.clone()) || seen.len() < 30 { emit_oracle_fail(k, w); } }
+    match final_out {
+        Some(o) => { use std::io::Write; std::io::stdout().write_all(&o).expect("stdout"); }
+        None => aborts.iter().take(1).for_each(|_| emit_sample("the worker kept dying: no model cases in this run")),
+    }
+    emit_stat("worker_restarts", restarts);
+    emit_stat("process_aborts", aborts.len() as u64);
+    let _ = std::fs::remove_dir_all(&dir);
+}
+
 fn main() {
     let args = args();
     if args.extra.len() >= 3 && args.extra[0] == "--nest-child" { nest_child(&args.extra[1], args.extra[2].parse().unwrap()); return; }
+    if args.extra.len() >= 3 && args.extra[0] == "--probe-one" {
+        let e: usize = args.extra[1].parse().unwrap();
+        let b = std::fs::read(&args.extra[2]).unwrap_or_default();
+        let eps = entry_points();
+        let _ = guard(|| (eps[e].1)(&b));
+        return;
+    }
+    if !args.extra.iter().any(|x| x == "--worker") { supervise(&args); return; }
+    worker(&args);
+}
+
+fn worker(args: &Args) {
     let mut rng = Rng::new(args.seed);
     let thorough = args.tier == "thorough";
     let repo = std::env::var("VERIF_REPO").unwrap_or("/repo".to_string());
@@ -384,7 +478,7 @@ fn main() {
     for n in &names {
         let Ok(s) = std::fs::read_to_string(format!("{}/{}", dir, n)) else { continue };
         let Ok(bytes) = hex::decode(s.trim()) else { continue };
-        if bytes.len() > 120_000 && !thorough { continue; }
+        let too_big = bytes.len() > 120_000 && !thorough;
         // sub-artefacts: header, first bodies / witness sets / outputs, so that the small decoders see valid inputs too
         if let Ok(root) = cbor_tree::parse(&bytes) {
             if n.ends_with(".block") {
@@ -392,6 +486,7 @@ fn main() {
                     if let Some(h) = inner.at(0) { seeds.push((format!("{}#header", n), h.span(&bytes).to_vec())); }
                     for k in 1..=2 { if let Some(xs) = inner.at(k).and_then(|x| x.elems()) { for (i, x) in xs.iter().enumerate().take(2) { seeds.push((format!("{}#f{}#{}", n, k, i), x.span(&bytes).to_vec())); } } }
                     if let Some(body) = inner.at(1).and_then(|x| x.at(0)) {
+                        for key in [4u64, 20] { if let Some(xs) = body.get(key).and_then(|x| x.elems_untag()) { for (i, x) in xs.iter().enumerate().take(2) { seeds.push((format!("{}#body{}#{}", n, key, i), x.span(&bytes).to_vec())); } } }
                         if let Some(outs) = body.get(1).and_then(|x| x.elems()) { for (i, o) in outs.iter().enumerate().take(2) {
                             seeds.push((format!("{}#out{}", n, i), o.span(&bytes).to_vec()));
                             let addr = o.get(0).or_else(|| o.at(0)); if let Some(Kind::Bytes(_, a)) = addr.map(|x| &x.kind) { seeds.push((format!("{}#addr{}", n, i), a.clone())); }
@@ -400,7 +495,7 @@ fn main() {
                 }
             }
         }
-        seeds.push((n.clone(), bytes));
+        if !too_big { seeds.push((n.clone(), bytes)); }
     }
     for (i, m) in message_seeds().into_iter().enumerate() { seeds.push((format!("msg{}", i), m)); }
     // addresses (bech32 / base58 strings as bytes, and raw)
@@ -424,7 +519,11 @@ fn main() {
     }
     emit_stat("seed_inputs", seeds.len() as u64);
 
-    let mut run = Run { eps: entry_points(), panics: BTreeMap::new(), oks: BTreeMap::new(), errs: BTreeMap::new(), calls: 0 };
+    let mut skip = std::collections::BTreeSet::new();
+    for part in extra_val(args, "--skip").unwrap_or_default().split(';') { if let Some((i, e)) = part.split_once('=') { if let Ok(i) = i.parse::<usize>() { skip.insert((i, e.to_string())); } } }
+    let skip_eps: std::collections::BTreeSet<String> = extra_val(args, "--skip-eps").unwrap_or_default().split(';').filter(|x| !x.is_empty()).map(|x| x.to_string()).collect();
+    let progress = extra_val(args, "--progress").and_then(|p| std::fs::OpenOptions::new().create(true).write(true).open(p).ok());
+    let mut run = Run { eps: entry_points(), panics: BTreeMap::new(), oks: BTreeMap::new(), errs: BTreeMap::new(), calls: 0, idx: 0, skip, skip_eps, progress };
     emit_stat("entry_points", run.eps.len() as u64);
     let mut budget = if args.oracle_only { 0 } else { args.n };
     let mut inputs = 0u64;
@@ -439,6 +538,61 @@ fn main() {
     for hdr in 0..=255u8 { for len in [0usize, 1, 27, 28, 29, 30, 55, 56, 57, 58] { let mut b = vec![hdr]; b.extend(std::iter::repeat(0x80 | (len as u8 & 0x7f)).take(len)); fixed.push(b); } }
     for k in 0..12 { fixed.push(vec![0xff; k]); fixed.push(vec![0x80 + k as u8; 9]); fixed.push(std::iter::repeat(0xffu8).take(k).chain([0x7f]).collect()); }
     for b in &fixed { let res = run.all(b, "boundary"); inputs += 1; let any_panic = res.values().any(|r| r.0 == 2); if any_panic || (budget > 0 && rng.below(8) == 0) { emit_model_cases(&mut rng, b, "boundary", &res, &mut budget, false); } }
+    // 2b. targeted corruptions of every seed message and of the small artefacts: huge declared lengths on every
+    //     container head, repeated map keys, texts with multi-byte characters around typical truncation limits
+    let texts = cbor_tree::nasty_texts();
+    for (name, text) in [("addr1", "1".repeat(133)), ("addr1b", "1".repeat(200)), ("addr1c", format!("{}{}", "1".repeat(120), "Ae2tdPwUPEZFRbyhz3cpfC2CumGzNkFBN2L42rcUc2yjQpEkxDbkPodpMAi")),
+                         ("addr1d", format!("{}{}", "1".repeat(100), "z".repeat(60))), ("addr1e", "z".repeat(200)), ("addr1f", "1".repeat(132)), ("addr1g", format!("{}2", "1".repeat(131)))] {
+        let res = run.all(text.as_bytes(), name); inputs += 1;
+        if res.values().any(|r| r.0 == 2) { emit_model_cases(&mut rng, text.as_bytes(), "base58-ones", &res, &mut budget, false); }
+    }
+    for t in &texts {
+        // as a bare (non-CBOR) text: the localtxsubmission rejection fallback reads the whole buffer as UTF-8
+        let res = run.all(t, "bare-text"); inputs += 1;
+        if budget > 0 && rng.below(6) == 0 || res.values().any(|r| r.0 == 2) { emit_model_cases(&mut rng, t, "bare-text", &res, &mut budget, false); }
+        // and as a CBOR text item inside the messages that carry text
+        for wrap in [vec![0x82u8, 0x02], vec![0x82, 0x02, 0x83, 0x01, 0x0d], vec![0x82, 0x02, 0x83, 0x02, 0x0d], vec![0x82, 0x01], vec![0x81]] {
+            let mut b = wrap.clone(); cbor_tree::Item::new(Kind::Text(cbor_tree::min_w(t.len() as u64), t.clone())).write(&mut b);
+            let res = run.all(&b, "text-in-message"); inputs += 1;
+            if res.values().any(|r| r.0 == 2) { emit_model_cases(&mut rng, &b, "text-in-message", &res, &mut budget, false); }
+        }
+    }
+    for si in 0..seeds.len() {
+        let (name, base) = (seeds[si].0.clone(), seeds[si].1.clone());
+        let is_msg = name.starts_with("msg") || name.starts_with("corpus");
+        if !is_msg && base.len() > 3000 { continue; }
+        let Ok(root) = cbor_tree::parse(&base) else { continue };
+        let mut heads = vec![]; cbor_tree::container_heads(&root, &base, &mut heads);
+        let cap = if is_msg { 40 } else if thorough { 12 } else { 3 };
+        // messages: every head; artefacts: the outermost heads plus a few random ones
+        let mut chosen: Vec<usize> = (0..heads.len().min(if is_msg { cap } else { 2 })).collect();
+        while chosen.len() < cap.min(heads.len()) { let k = rng.below(heads.len() as u64) as usize; if !chosen.contains(&k) { chosen.push(k); } }
+        for k in chosen {
+            let (st, hl, mj) = heads[k];
+            for l in cbor_tree::HUGE_LENS.iter() {
+                if !is_msg && !thorough && rng.below(2) == 0 { continue; }
+                let b = cbor_tree::with_declared_len(&base, st, hl, mj, *l);
+                let res = run.all(&b, &format!("{}+huge-len", name)); inputs += 1;
+                if (budget > 0 && rng.below(10) == 0) || res.values().any(|r| r.0 == 2) { emit_model_cases(&mut rng, &b, "huge-len", &res, &mut budget, false); }
+            }
+        }
+        for b in cbor_tree::duplicate_key_mutants(&mut rng, &root, if is_msg { 8 } else { 2 }) {
+            let res = run.all(&b, &format!("{}+dup-key", name)); inputs += 1;
+            if (budget > 0 && rng.below(6) == 0) || res.values().any(|r| r.0 == 2) { emit_model_cases(&mut rng, &b, "dup-key", &res, &mut budget, false); }
+        }
+        let t = &texts[rng.below(texts.len() as u64) as usize];
+        for b in cbor_tree::text_mutants(&root, t, 3).into_iter().chain(cbor_tree::text_mutants(&root, &texts[8 * 7], 2)) {
+            let res = run.all(&b, &format!("{}+text", name)); inputs += 1;
+            if (budget > 0 && rng.below(6) == 0) || res.values().any(|r| r.0 == 2) { emit_model_cases(&mut rng, &b, "text", &res, &mut budget, false); }
+        }
+    }
+    // the handshake version table: repeated version numbers, huge tables
+    for hx in ["8200a207820 1f407820 1f4", "8200a20d841a2d964a09f401f40d841a2d964a09f401f4", "8203a20d841a2d964a09f401f40d841a2d964a09f401f4", "8200bbffffffffffffffff", "8203bbffffffffffffffff", "8200bb0000000100000000",
+               "8200ba00ffffff0d841a2d964a09f401f4", "a20d841a2d964a09f401f40d841a2d964a09f401f4", "bbffffffffffffffff", "8200a2198010821a2d964a09f4198010821a2d964a09f4"] {
+        let b = hex::decode(hx.replace(' ', "")).unwrap();
+        let res = run.all(&b, "version-table"); inputs += 1;
+        if budget > 0 { emit_model_cases(&mut rng, &b, "version-table", &res, &mut budget, false); }
+    }
     // 3. label sweeps
     for label in 0..=12u64 { for arity in 1..=4usize { for _ in 0..(if thorough { 12 } else { 3 }) {
         let mut xs = vec![Item::uint(label)]; for _ in 1..arity { xs.push(pool_item(&mut rng, 2)); }
